@@ -200,6 +200,9 @@ func (w *World) drawSchedule(allowStall bool) {
 		default:
 			c.Policy = simrt.PolRandom
 		}
+		if c.Policy == simrt.PolPCT {
+			stall /= 10 // PCT takes a scheduler decision at every step: keep simulated time from running away
+		}
 		c.SwitchPM = sw
 		c.HotFiles = hotFiles
 		c.HotPM = hot
@@ -280,10 +283,13 @@ func (w *World) quiesce(settle time.Duration, closeAll bool) {
 			all = false
 			w.violate("C07", "never-closed", "channel %s is still %v %v after Close although nothing is in flight (connections: %s)", n.Name, st, deadline, n.connSummary())
 		} else {
+			// the state is published before the signal: give the signal (generous) simulated time
+			t := time.NewTimer(10 * time.Second)
 			select {
 			case <-n.Ch.ClosedChan():
-			default:
-				w.violate("C07", "closed-not-signalled", "channel %s reports closed but ClosedChan is not signalled", n.Name)
+				t.Stop()
+			case <-t.C:
+				w.violate("C07", "closed-not-signalled", "channel %s reports closed but ClosedChan is still not signalled 10s later", n.Name)
 			}
 		}
 	}
